@@ -247,11 +247,6 @@ package raft
 //@   ensures [C18.truncated-is-error] result0 == nil ==> rpos[ref(r)] <= rend[ref(r)] || old(rpos[ref(r)]) > old(rend[ref(r)])
 //@   ensures [C18.dec-frame] ConsumedSome(r)
 
-// STUB (the configuration codec is not under contract yet): a fresh entry carrying the configuration
-//@ func (Config).encode
-//@   trusted
-//@   ensures result0 != nil && isfresh(result0) && result0.index == c.Index && result0.term == c.Term && result0.typ == entryConfig
-
 //@ func (*installSnapReq).encode
 //@   requires w != nil
 //@   modifies wdata, wlen
